@@ -63,6 +63,14 @@ class TitlesHarness(h_lib.LibHarness):
         blocks_out = std_json(pyval(ex.call("Projector::project::<TreeIter<'_>>", [it, Ref(Cell(parent))])))
         out = find_link(blocks_out)
         info = {'input': ctx.input_desc, 'output_link': out}
+        # ---- C05: a block reference is indexed under the key it resolves to from the linking note's directory
+        if place == 'block' and not is_external(url):
+            tgt = resolve(url, src)
+            br = ex.call('Graph::get_block_references_to', [gref, Ref(Cell(h.key(tgt)))])
+            owners = set()
+            for c in br.items:
+                owners.add(pyval(ex.call('<&Graph as GraphContext>::key_of', [Ref(Cell(gref)), c.v]))['relative_path'])
+            ctx.law('C05.block-reference-indexed-under-resolved-key', src in owners, dict(info, resolved=tgt, owners=sorted(owners)))
         self.judge(ctx.input_desc, out, ctx.law, info, ctx)
         if self.tv_pick(ctx.trace):
             script = self.native_script(ctx.input_desc)
@@ -158,6 +166,11 @@ class TitlesHarness(h_lib.LibHarness):
             return ok is True
         self.judge(d, out, law, {}, None)
         v['replay_verdict'] = 'native link %s; laws violated: %s; text: %r' % (out, failed, res[2])
+        if v['law'] == 'C05.block-reference-indexed-under-resolved-key':
+            tgt = resolve(d['url'], d['linking_note'])
+            r2 = driver.run(script[:1] + [{'op': 'block_refs_to', 'key': tgt}])
+            v['replay_verdict'] = 'native block references to %s: %s' % (tgt, r2[-1])
+            return r2[-1] == []
         return v['law'] in failed
 
 def find_link(blocks):
